@@ -165,8 +165,8 @@ def _intent_from_trace(rule):
         elif name in _FILTER_KIND and slot and args:
             a = args[0]
             names = a if isinstance(a, list) else [a]
-            if not all(isinstance(x, str) for x in names):
-                return None
+            if not all(isinstance(x, str) and not (x.startswith("<") and x.endswith(">")) for x in names):
+                return None  # an argument the trace recorder could not copy (iterator, generator, ...)
             flt = [(_FILTER_KIND[name], x) for x in names]
             if slot == "s":
                 subs = flt
